@@ -97,8 +97,18 @@ func runFR(c *Ctx, s *Sink) {
 						continue
 					}
 					for k, r := range a2.Rhs {
-						b, ok := ast.Unparen(r).(*ast.BinaryExpr)
-						if !ok || b.Op != token.ADD {
+						var b *ast.BinaryExpr
+						ast.Inspect(r, func(m ast.Node) bool {
+							if be, ok := m.(*ast.BinaryExpr); ok && be.Op == token.ADD && b == nil {
+								if o := rootObj(info, be.X); o == from || o == to {
+									b = be
+								} else if o := rootObj(info, be.Y); o == from || o == to {
+									b = be
+								}
+							}
+							return true
+						})
+						if b == nil {
 							continue
 						}
 						x, y := rootObj(info, b.X), rootObj(info, b.Y)
@@ -141,6 +151,33 @@ func runFR(c *Ctx, s *Sink) {
 						}
 					}
 					return ok
+				}
+				// FR-out: LocatePattern's matrix has a row -1 and its backtracking loop runs while j > 0 only,
+				// so the start offset it returns can be -1 when the pattern overhangs the beginning of the
+				// fragment: the translated start must be clamped to >= 0 before it is reported.
+				outClamped := false
+				for _, st2 := range list[i+1:] {
+					a2, ok := st2.(*ast.AssignStmt)
+					if !ok || len(a2.Rhs) != 1 {
+						continue
+					}
+					if cl, isC := ast.Unparen(a2.Rhs[0]).(*ast.CallExpr); isC {
+						if id, isI := cl.Fun.(*ast.Ident); isI && id.Name == "max" && mentionsVar(info, cl, from) {
+							outClamped = true
+						}
+						if id, isI := cl.Fun.(*ast.Ident); isI && id.Name == "max" && len(cl.Args) == 2 {
+							// x = max(x, 0) on the translated start
+							for _, prev := range list[i+1:] {
+								if pa, ok := prev.(*ast.AssignStmt); ok && pa.Pos() < a2.Pos() && len(pa.Lhs) == 1 && mentionsVar(info, pa.Rhs[0], from) &&
+									types.ExprString(pa.Lhs[0]) == types.ExprString(cl.Args[0]) {
+									outClamped = true
+								}
+							}
+						}
+					}
+				}
+				if !outClamped {
+					problems = append(problems, "the start offset returned by LocatePattern can be -1 (pattern overhanging the beginning of the fragment: the backtracking may end in the matrix row -1) and is reported without being clamped to 0: the span lies outside the sequence")
 				}
 				if !clampOK(lo, "max") {
 					problems = append(problems, "the low bound of the fragment is not clamped with max(·, 0) before slicing")
